@@ -148,6 +148,32 @@ def import_cases():
     }
     yield ("import", "diamond"), dict(files={**base, **diamond}, main_rel="proj/src/main.exps",
                                      imp=["./a.exps", "./b.exps"], lookups=[], expect="diamond")
+    for name, extra, imps, want in more_diamonds():
+        yield ("import", name), dict(files={**base, **extra}, main_rel="proj/src/main.exps", imp=imps, lookups=[], expect="diamond",
+                                     want=want)
+
+
+def more_diamonds():
+    a = 'import "./c.exps";\nmacro ma() {\n    ~mc();\n    used_a();\n}\n'
+    c_leaf = "macro mc() {\n    used_c();\n}\n"
+    c_imports_d = 'import "./d.exps";\nmacro mc() {\n    ~md();\n    used_c();\n}\n'
+    d = "macro md() {\n    used_d();\n}\n"
+    b_via_c = 'import "./c.exps";\nmacro mb() {\n    ~mc();\n    used_b();\n}\n'
+    b_via_a = 'import "./a.exps";\nmacro mb() {\n    ~ma();\n    used_b();\n}\n'
+    sub_b = 'import "../c.exps";\nmacro mb() {\n    ~mc();\n    used_b();\n}\n'
+    # the shared file has an import of its own
+    yield "diamond-deep", {"proj/src/a.exps": a, "proj/src/b.exps": b_via_c, "proj/src/c.exps": c_imports_d, "proj/src/d.exps": d}, \
+        ["./a.exps", "./b.exps"], ["before", "used_d", "used_c", "used_a", "used_d", "used_c", "used_b", "after"]
+    # a file with an import is reached directly and through another file (both orders of the imports)
+    for name, imps in (("diamond-via", ["./a.exps", "./b.exps"]), ("diamond-via-rev", ["./b.exps", "./a.exps"])):
+        yield name, {"proj/src/a.exps": a, "proj/src/b.exps": b_via_a, "proj/src/c.exps": c_leaf}, imps, \
+            ["before", "used_c", "used_a", "used_c", "used_a", "used_b", "after"]
+    # the same file reached under two spellings of its path
+    yield "diamond-two-spellings", {"proj/src/a.exps": a, "proj/src/sub/b.exps": sub_b, "proj/src/c.exps": c_leaf}, \
+        ["./a.exps", "./sub/b.exps"], ["before", "used_c", "used_a", "used_c", "used_b", "after"]
+    # the same import twice
+    yield "import-twice", {"proj/src/a.exps": a, "proj/src/b.exps": b_via_c, "proj/src/c.exps": c_leaf}, \
+        ["./a.exps", "./b.exps", "./a.exps"], ["before", "used_c", "used_a", "used_c", "used_b", "after"]
 
 
 def run_import_case(cid, spec):
@@ -180,7 +206,9 @@ def run_import_case(cid, spec):
     if spec["expect"] is None:
         return {"outcome": "violation", "nt": nt,
                 "viol": {"kind": "import-accepted-missing", "detail": {"ops": names, "case": repr(cid)}}}
-    if spec["expect"] == "diamond":
+    if spec.get("want"):
+        want = spec["want"]
+    elif spec["expect"] == "diamond":
         want = ["before", "used_c", "used_a", "used_c", "used_b", "after"]
     else:
         want = ["before", "used_" + spec["expect"], "after"]
